@@ -7,6 +7,10 @@ import (
 	"time"
 
 	"go.opentelemetry.io/collector/component/componenttest"
+	"go.opentelemetry.io/collector/pdata/plog"
+	"go.opentelemetry.io/collector/pdata/pmetric"
+	"go.opentelemetry.io/collector/pdata/pprofile"
+	"go.opentelemetry.io/collector/pdata/ptrace"
 	"go.opentelemetry.io/collector/processor/memorylimiterprocessor"
 	"go.opentelemetry.io/collector/verifharness/sig"
 	"go.opentelemetry.io/collector/verifharness/vt"
@@ -23,7 +27,7 @@ var cLP = vt.New("C18", "lifecycle-probes")
 const probeTicks = 8 // 8 harness ticks of 50 ms = 400 check intervals without a single reading
 
 type LPScript struct {
-	Shape   string // shutdown-of-unstarted-sibling | restart-after-full-shutdown
+	Shape   string // shutdown-of-unstarted-sibling | restart-after-full-shutdown | reload-with-new-equal-config-object (judged)
 	Signals [2]string
 }
 
@@ -73,6 +77,34 @@ func runLP(s LPScript) (observed bool, f *vt.Finding) {
 				"2 processors (%s, %s) from one config, limit_mib=100 spike_limit_mib=20 check_interval=1ms: Start(A); Shutdown(A); Start(B): no memory check ran for %d ms while B was running (the shared ticker was stopped by the first full shutdown and is not re-armed); Shutdown(B) returned %v",
 				s.Signals[0], s.Signals[1], probeTicks*50, errB)
 		}
+	case "reload-with-new-equal-config-object":
+		// JUDGED shape (what a config reload with an unchanged memory_limiter section does to a long-lived
+		// factory): generation 0 fully shut down, generation 1 created from a new config object with equal
+		// settings.  Its checker must run and follow the usage in both directions.
+		if err := a.comp.Shutdown(ctx); err != nil {
+			return false, vt.Failf("refcount/shutdown-error", "Shutdown(A): %v", err)
+		}
+		restore := src.install()
+		n, errN := newProc(ctx, factory, s.Signals[1], c.real(time.Millisecond))
+		restore()
+		if errN != nil {
+			return false, vt.Failf("harness/new", "create: %v", errN)
+		}
+		if err := n.comp.Start(ctx, host); err != nil {
+			return false, vt.Failf("refcount/start-error", "Start(N) after Shutdown(A): %v", err)
+		}
+		defer func() { _ = n.comp.Shutdown(ctx) }()
+		for i, lvl := range []uint64{500 * mib, 10 * mib, 80 * mib, 80*mib - 1} {
+			if why := src.awaitCheckWhy(src.setLevel(lvl, lvl), stallTicks); why != "" {
+				return false, vt.Failf("generation/checker-not-running/new-equal-object",
+					"factory F, config {limit_mib=100 spike_limit_mib=20 check_interval=1ms}: A=F.Create(cfg1); Start(A); Shutdown(A); N=F.Create(cfg2) with cfg2 a new object equal to cfg1; Start(N); usage %d: %s", lvl, why)
+			}
+			want := lvl >= 80*mib
+			v, _ := sig.Decode(s.Signals[1], minimalPayload(s.Signals[1]))
+			if f := n.call(cLP, Call{Payload: sig.Encode(v), Downstream: "ok"}, want, fmt.Sprintf("reload probe step %d (usage %d, soft limit %d)", i, lvl, 80*mib)); f != nil {
+				return false, f
+			}
+		}
 	default:
 		return false, vt.Failf("harness/script", "unknown shape %q", s.Shape)
 	}
@@ -97,7 +129,7 @@ func TestLifecycleProbes(t *testing.T) {
 		}
 		return
 	}
-	for _, shape := range []string{"shutdown-of-unstarted-sibling", "restart-after-full-shutdown"} {
+	for _, shape := range []string{"reload-with-new-equal-config-object", "shutdown-of-unstarted-sibling", "restart-after-full-shutdown"} {
 		for _, sg := range [][2]string{{sig.Logs, sig.Traces}, {sig.Metrics, sig.Metrics}} {
 			s := LPScript{Shape: shape, Signals: sg}
 			observed, f := runLP(s)
@@ -117,4 +149,17 @@ func TestLifecycleProbes(t *testing.T) {
 			}
 		}
 	}
+}
+
+// minimalPayload returns an empty payload of the signal (proto bytes).
+func minimalPayload(signal string) []byte {
+	switch signal {
+	case sig.Logs:
+		return sig.Encode(plog.NewLogs())
+	case sig.Traces:
+		return sig.Encode(ptrace.NewTraces())
+	case sig.Metrics:
+		return sig.Encode(pmetric.NewMetrics())
+	}
+	return sig.Encode(pprofile.NewProfiles())
 }
